@@ -229,11 +229,14 @@ def prepare(ctx, props_file, need_gen_oracle=False):
     with Lock('prepare'):
         t = time.time()
         regenerate(ctx)
-        vfile = COQ + '/theories/Props/%s.v' % props_file
-        names = theorem_names(vfile)
+        pfiles = props_file if isinstance(props_file, (list, tuple)) else [props_file]
+        ctx.props_files = pfiles
+        names = []
+        for pf in pfiles:
+            names += theorem_names(COQ + '/theories/Props/%s.v' % pf)
         ctx.obligations = len(names)
         if ctx.gen_ok:
-            ok, out = coq_make(ctx, ['theories/Props/%s.vo' % props_file])
+            ok, out = coq_make(ctx, ['theories/Props/%s.vo' % pf for pf in pfiles])
         else:
             ok, out = False, 'model cannot be regenerated: ' + ctx.gen_msg
         ctx.coq_ok = ok
